@@ -1,16 +1,19 @@
 """C01 - Lexing and parsing are total, and diagnostics are located in the input.
 
-proof  : coq/Props/C01.v  (lex_total, lex_no_crash, lex_typed, lex_located*, pump_total, pump_no_crash,
-         keyword table = documented table) over Model/Lex.v + Model/Pump.v
+proof  : coq/Props/C01.v  (lex_total, lex_no_crash, lex_typed, lex_located, pump_total, pump_no_crash, source_long_ok,
+         parse_total, parse_no_crash for the three entry points, keyword table = documented table) over
+         Model/Lex.v + Model/Pump.v + Model/LexParse.v (+ C02's Model/Parse*.v)
 tie    : T  Gen/Tokens.v (token type constants + keywords map) regenerated from token/token.go
          C  extracted model (build/modelrun_lex: lex, pump) vs the real lexer and the parser's ReadPeek
             (build/implrun lex|pump) on the same byte strings: token streams (type, literal, line, column)
             and pumped metas (token, nest level, leading comments with their flags, empty-line counts)
+         C  extracted composed model (build/modelrun_lexparse: bytes -> lexer -> pump -> parser model) vs build/implrun parse:
+            outcome class and error token (type, literal, line, column, offset) for ParseVCL, ParseSnippetVCL, ParseVCLOrSnippet
 oracle : on the implementation alone (independent of the model): lexing ends with EOF, the EOF token is stable,
          no token has an empty type, every token's (line, column) lies inside the input and the text there starts
          with the token's surface form; the three parser entry points (ParseVCL, ParseSnippetVCL,
          ParseVCLOrSnippet) terminate under a watchdog without panic, and every error is a *ParseError whose
-         token is located in the same sense.  The parser itself is not modelled here (C02's Model/Parse*.v).
+         token is located in the same sense.
 """
 import os
 import re
@@ -53,6 +56,7 @@ def run(ctx):
     proved = ctx.prove()
     with V.Lock("build"):
         model = V.driver("lex")
+        V.driver("lexparse")
     implrun = os.path.join(V.BUILD, "implrun")
     ctx.trusted += [
         "Coq 8.16.1 kernel (coqc; vm_compute for the table obligation and the Examples; no native_compute)",
@@ -63,8 +67,10 @@ def run(ctx):
         "computes the raw-byte position table of the oracle with Go's own []rune(string) decoding)",
         "modelled not verified: Model/Lex.v and Model/Pump.v are hand transcriptions of lexer/lexer.go, lexer/reader.go and "
         "Parser.ReadPeek, tied by the differential run below; bufio.Reader is modelled as the remaining byte list with a 4096-byte Peek window",
-        "the parser (parser/*.go beyond ReadPeek) is NOT modelled by C01: it is covered by the watchdog/oracle run only; "
-        "parse_total / parse_no_crash are imported from C02's Model/Parse*.v by the integrator",
+        "the parser model is C02's (Model/Parse*.v, Gen/TokenTypes.v, Gen/ParserTables.v); C01 composes it with the lexer/pump model "
+        "(Model/LexParse.v) and compares the composition with the three real entry points (outcome class + error token); "
+        "strconv.ParseFloat verdicts are an oracle supplied by the Go side (implrun floats)",
+        "not proved: provenance of the parser model's error token (C01_parse_error_located_partial); compared on every input instead",
         "lexer custom tokens (WithCustomTokens / parser custom parsers) are not modelled (empty map)",
     ]
 
@@ -128,6 +134,11 @@ def run_inputs(ctx, proved, model, implrun, inputs, g, replaying=False):
     m_lex = V.run_batch([model], ["lex " + h for h in hexes], hang_s=60, mem_kb=big)
     m_pump = V.run_batch([model], ["pump " + h for h in hexes], hang_s=60, mem_kb=big)
     i_parse = {m: V.run_batch([implrun, "parse"], [m + " " + h for h in hexes], hang_s=2, max_failures=3) for m in MODES}
+    # the composed model bytes -> lexer -> pump -> parser model (Model/LexParse.v); strconv.ParseFloat verdicts from Go
+    i_floats = V.run_batch([implrun, "floats"], hexes, hang_s=4, max_failures=3)
+    m_parse = V.run_batch([os.path.join(V.BUILD, "modelrun_lexparse")],
+                          [((f if f and not first_fail(f) else "-") + " " + h) for f, h in zip(i_floats, hexes)],
+                          hang_s=120, mem_kb=big)
 
     def replay(lab, d, **kw):
         r = {"label": lab, "source_hex": d.hex(), "source": d[:300].decode("utf-8", "replace")}
@@ -135,6 +146,7 @@ def run_inputs(ctx, proved, model, implrun, inputs, g, replaying=False):
         return r
 
     agree_lex = agree_pump = 0
+    agree_parse = {}
     tok_types = {}
     n_tokens = 0
     outcomes = {m: {} for m in MODES}
@@ -177,9 +189,21 @@ def run_inputs(ctx, proved, model, implrun, inputs, g, replaying=False):
         else:
             agree_pump += 1
         # ---- parser entry points: watchdog + located errors
-        for m in MODES:
+        mpr = (m_parse[k] or "none").split(" | ")
+        for mi, m in enumerate(MODES):
             r = i_parse[m][k]
             c = cls(r)
+            # ---- composed model vs the real parser: outcome class and located error token
+            if not first_fail(r):
+                want = "ok" if c == "ok" else "plain" if c == "plain" else "perr " + r.split(" ", 2)[2] if c == "perr" else r
+                got = mpr[mi] if len(mpr) == 3 else (m_parse[k] or "none")
+                if got != want:
+                    what = "parse outcome (%s) differs between the real parser and the composed model Lex+Pump+Parse (%s)" % (m, lab)
+                    if got in ("crash", "fuel", "outoffuel", "hang") or got.startswith(("died", "badreq")):
+                        what = "composed model Lex+Pump+Parse returns %s (%s, %s)" % (got[:60], m, lab)
+                    ctx.violation(what, replay(lab, d, mode=m, impl=r, model=got))
+                else:
+                    agree_parse[m] = agree_parse.get(m, 0) + 1
             outcomes[m][c] = outcomes[m].get(c, 0) + 1
             if first_fail(r):
                 if c != "skipped":
@@ -201,7 +225,7 @@ def run_inputs(ctx, proved, model, implrun, inputs, g, replaying=False):
     idx = {d: k for k, (lab, d) in enumerate(inputs) if lab == "keyword"}
     for kwd, ty in ([] if replaying else reference_keywords()):
         r = i_lex[idx[kwd.encode()]] or ""
-        if "(%s \"%s\" 1 1)" % (ty, kwd.encode().hex()) in r:
+        if "(%s \"%s\" 1 1 0)" % (ty, kwd.encode().hex()) in r:
             kw_ok += 1
         elif not first_fail(r):
             ctx.violation("keyword %r is not lexed as %s" % (kwd, ty), replay("keyword", kwd.encode(), impl=r, expected=ty))
@@ -214,10 +238,10 @@ def run_inputs(ctx, proved, model, implrun, inputs, g, replaying=False):
     ctx.samples = [{"label": inputs[i][0], "source": inputs[i][1][:160].decode("utf-8", "replace"),
                     "tokens": (i_lex[i] or "")[:300]} for i in pick]
     ctx.coverage.update({
-        "evaluations": len(inputs) * 5,
+        "evaluations": len(inputs) * 8,
         "distinct_nontrivial": len(distinct),
         "inputs": len(inputs), "input_distribution": dict(sorted(dist.items(), key=lambda kv: -kv[1])),
-        "lex_agree": agree_lex, "pump_agree": agree_pump, "tokens_checked_by_oracle": n_tokens,
+        "lex_agree": agree_lex, "pump_agree": agree_pump, "parse_agree": agree_parse, "tokens_checked_by_oracle": n_tokens,
         "token_types_seen": dict(sorted(tok_types.items(), key=lambda kv: -kv[1])),
         "parse_outcomes": outcomes, "parse_error_token_types": dict(sorted(err_types.items(), key=lambda kv: -kv[1])),
         "keywords_checked": kw_ok, "bytes_total": sum(len(d) for _, d in inputs),
